@@ -6,7 +6,7 @@ import ast
 from sa.analysis import Analysis
 from sa.model import AnalysisError, loc, norm_src
 
-from .normalize_model import (NOFOLD, arm_for, classes_with_private_reach, field_default, fold_default,
+from .normalize_model import (keeps_acting_entries, NOFOLD, arm_for, classes_with_private_reach, field_default, fold_default,
                               is_recursion_on, parse_normalize)
 
 
@@ -35,7 +35,10 @@ def reset_rules(an: Analysis, rep):
                             else f"{fn.name} has no arm for {ci.name}: private field {f.name} survives normalization, so two decodes that differ only in this artefact stay different")
                     continue
                 if arm.kind in ("replace", "ctor"):
-                    if f.name in arm.kws:
+                    if f.name in arm.kws and d == () and keeps_acting_entries(p, arm.kws[f.name], f.name):
+                        rep.add("R06.1", f"{ci.qual}.{f.name}", True, loc(fn.module, arm.kws[f.name]),
+                                f"restricted to its non-zero entries ({norm_src(arm.kws[f.name])[:60]}): the zero entries are the redundant ones, the restriction is idempotent and depends on nothing else")
+                    elif f.name in arm.kws:
                         v = fold_default(arm.kws[f.name])
                         if v is NOFOLD and not _mentions(arm.kws[f.name], p):
                             raise AnalysisError(f"{fn.qual}: cannot fold the reset value {norm_src(arm.kws[f.name])} of {f.name}")
@@ -151,7 +154,7 @@ def run(an: Analysis, rep):
                 f = ci.field(k)
                 if f is None:
                     bad.append(f"{k} is not a field of {cname}")
-                elif f.private and (fold_default(v) is NOFOLD):
+                elif f.private and (fold_default(v) is NOFOLD) and not keeps_acting_entries(p, v, k):
                     bad.append(f"private {k} set from a non-constant expression {norm_src(v)}")
             if arm.kind == "ctor" and arm.ctor_class != cname:
                 bad.append(f"arm for {cname} constructs {arm.ctor_class}")
@@ -271,6 +274,11 @@ def _mentions(node, name):
     return any(isinstance(n, ast.Name) and n.id == name for n in ast.walk(node))
 
 
+class _Either:
+    def __init__(self, *alts):
+        self.alts = alts
+
+
 def r06n(an: Analysis, rep, rule="R06.N"):
     """normalize folded over a witness CodeData in which every private field of every class of the model holds a non-default value, at every
     place the model allows (operands of every class, a nested code object that is itself full of artefacts, unreferenced entries, a trailing
@@ -329,12 +337,17 @@ def r06n(an: Analysis, rep, rule="R06.N"):
             out = Obj({"__cls__": ci.name})
             for fl in ci.fields:
                 out[fl.name] = default_of(fl) if fl.private else strip(v[fl.name])
+                if fl.private and isinstance(v[fl.name], tuple) and all(isinstance(x, int) for x in v[fl.name]) and any(v[fl.name]):
+                    # extra line-table entries: the normal form may keep the ones that act (non-zero: CPython fires a line event at them, C05's R05.T) or drop them all
+                    out[fl.name] = _Either(default_of(fl), tuple(x for x in v[fl.name] if x != 0))
             return out
         if isinstance(v, tuple):
             return tuple(strip(x) for x in v)
         return v
 
     def diff(a, b, path="x"):
+        if isinstance(b, _Either):
+            return None if any(diff(a, alt, path) is None for alt in b.alts) else f"{path}: {_show(a)} instead of one of {[_show(x) for x in b.alts]}"
         if isinstance(a, Obj) or isinstance(b, Obj):
             if not (isinstance(a, Obj) and isinstance(b, Obj)) or a.get("__cls__") != b.get("__cls__"):
                 return f"{path}: {_show(a)} instead of {_show(b)}"
